@@ -395,3 +395,36 @@ LP('ex_stack_nth', [ptl__, kk], z3.Implies(z3.And(kk >= 0, kk < ptl_len(ptl__)),
    triggers=[ptl_nth_back(ptl__, kk)], ih_extra=_km1, uses=['ptl_len_zero'], split_depth=1)
 for _n in ('ex_mem_len', 'tl_nth_snoc', 'ex_mem_nth', 'ex_stack_len', 'tl_len_snoc', 'tl_len_nonneg', 'il_len_nonneg', 'il_len_zero', 'ptl_len_zero'):
     PUBL[_n] = (LIB.get(_n) or STREAM.get(_n))
+
+# --- pushing the values of an instantiation map, in map order, onto a stack (C03/C08: loops over delta.values() / delta.items()) -------------
+MAPL = {}
+
+
+def LM(name, vars, stmt, **kw):
+    lm = Lemma(name, vars, stmt, **kw)
+    MAPL[name] = lm
+    return lm
+
+
+pushall = _rec_('pushall', MMap, TL, TL)
+_pm = z3.Const('_pm', MMap)
+_px = z3.Const('_px', TL)
+_def_(pushall, [_pm, _px], z3.If(MMp.is_('mnil', _pm), _px,
+                                 pushall(MMp.get('mcons', 'mtl', _pm), TLs.mk('tcons', TRM.mk('Pat', MMp.get('mcons', 'mval', _pm)), _px))), dec=0)
+LM('tl_nth_dropn', [tl__, kk], z3.Implies(z3.And(kk >= 0, kk < tl_len(tl__)),
+                                          z3.And(TLs.is_('tcons', tl_dropn(tl__, kk)), tl_nth(tl__, kk) == TLs.get('tcons', 'thd', tl_dropn(tl__, kk)),
+                                                 tl_dropn(tl__, kk + 1) == TLs.get('tcons', 'ttl', tl_dropn(tl__, kk)))), ind=tl__,
+   triggers=[tl_dropn(tl__, kk)], ih_extra=_km1, uses=['tl_len_nonneg'], split_depth=1)
+LM('tl_pats_snoc_g', [tl__, tt__], z3.Implies(TRM.is_('Pat', tt__), tl_pats(tl_snoc(tl__, tt__)) == ml_snoc(tl_pats(tl__), TRM.get('Pat', 'pat', tt__))), ind=tl__,
+   triggers=[tl_snoc(tl__, tt__)])
+LM('tl_allpat_snoc_g', [tl__, tt__], tl_allpat(tl_snoc(tl__, tt__)) == z3.And(tl_allpat(tl__), TRM.is_('Pat', tt__)), ind=tl__, triggers=[tl_snoc(tl__, tt__)])
+_pushall_stmt = z3.And(tl_pats(tl_taken(pushall(m_, tl__), mlen(m_))) == mvals_rev(m_), tl_allpat(tl_taken(pushall(m_, tl__), mlen(m_))),
+                       tl_dropn(pushall(m_, tl__), mlen(m_)) == tl__, tl_len(pushall(m_, tl__)) == mlen(m_) + tl_len(tl__))
+LM('pushall_views', [m_, tl__], _pushall_stmt, ind=m_, triggers=[pushall(m_, tl__)],
+   ih_extra=lambda f, val, vars: [[(vars[1], TLs.mk('tcons', TRM.mk('Pat', val.arg(1)), vars[1]))]],
+   uses=['tl_taken_step', 'tl_nth_dropn', 'tl_pats_snoc_g', 'tl_allpat_snoc_g', 'mlen_nonneg', 'tl_len_nonneg', 'tl_taken_zero'], split_depth=1)
+LM('tl_allpat_eq', [tl__, tl2__], z3.Implies(z3.And(tl_allpat(tl__), tl_allpat(tl2__), tl_pats(tl__) == tl_pats(tl2__)), tl__ == tl2__), ind=tl__,
+   triggers=[[tl_pats(tl__), tl_pats(tl2__)]], ih_extra=lambda f, val, vars: [[(vars[1], TLs.get('tcons', 'ttl', vars[1]))]], split_depth=1)
+for _n in ('tl_taken_step', 'tl_taken_zero', 'tl_taken_all', 'tl_pats_snoc', 'tl_allpat_snoc', 'mlen_nonneg', 'tl_len_nonneg', 'pm_values_pats', 'pm_values_allpat', 'pm_len_m',
+           'ex_stack_lastn', 'ex_stack_dropn', 'ex_stack_len', 'mlen_zero', 'pm_len_zero'):
+    MAPL[_n] = LIB.get(_n) or PUBL.get(_n) or STREAM.get(_n)
